@@ -104,7 +104,7 @@ pub fn configure_walker(roots: &[PathBuf], options: &scanner::PlanOptions) -> Wa
                 .add_custom_ignore_filename(".rnignore")  // Renamify-specific ignore file
                 .filter_entry(|e| {
                     // Exclude .git directories from being scanned
-                    e.file_name() != ".git"
+                    e.file_name() != ".git" && e.file_name() != ".renamify" // nor renamify's own state directory
                 })
         },
         1 => {
@@ -119,7 +119,7 @@ pub fn configure_walker(roots: &[PathBuf], options: &scanner::PlanOptions) -> Wa
                 .add_custom_ignore_filename(".rnignore")  // Renamify-specific ignore file
                 .filter_entry(|e| {
                     // Exclude .git directories from being scanned
-                    e.file_name() != ".git"
+                    e.file_name() != ".git" && e.file_name() != ".renamify" // nor renamify's own state directory
                 })
         },
         2 | 3 => {
@@ -134,7 +134,7 @@ pub fn configure_walker(roots: &[PathBuf], options: &scanner::PlanOptions) -> Wa
                 .hidden(false) // false = include hidden files
                 .filter_entry(|e| {
                     // Always exclude .git directories - they should never be renamed
-                    e.file_name() != ".git"
+                    e.file_name() != ".git" && e.file_name() != ".renamify" // nor renamify's own state directory
                 })
         },
         _ => {
@@ -148,7 +148,7 @@ pub fn configure_walker(roots: &[PathBuf], options: &scanner::PlanOptions) -> Wa
                 .hidden(false)
                 .filter_entry(|e| {
                     // Always exclude .git directories - they should never be renamed
-                    e.file_name() != ".git"
+                    e.file_name() != ".git" && e.file_name() != ".renamify" // nor renamify's own state directory
                 })
         },
     };
